@@ -109,6 +109,7 @@ class Recorder:
 
     def __init__(self):
         self.rows = {}          # name -> {canon(args): (args copy, outcome)}
+        self.raised = []        # (name, args, exception class) of every call that raised, in order
 
     def wrap(self, name):
         f = FUNCS[name]
@@ -121,6 +122,7 @@ class Recorder:
                 r = f(*a)
             except Exception as e:   # noqa: BLE001
                 rows.setdefault(key, (args, {"err": type(e).__name__}))
+                self.raised.append([name, args, type(e).__name__])
                 raise
             rows.setdefault(key, (args, {"ok": enc(copy.deepcopy(r))} if is_json(r) else {"err": "NotJson"}))
             return r
@@ -624,7 +626,10 @@ def _run(case, rec):
             res["alias"].append(["constant-value", site])
 
     # --- at once
+    n_raised = len(rec.raised)
     full_obj, res["full"] = outcome(lambda: convert_dict(doc, ms))
+    if "ok" in res["full"] and len(rec.raised) > n_raised:
+        res["swallowed"] = rec.raised[n_raised]
     check_snap("convert_dict")
     check_alias(full_obj, "convert_dict")
     res["full_is_input"] = full_obj is doc
